@@ -134,12 +134,16 @@ type viewCase struct {
 	Src    vmodel.StructKind
 	Form   string // ptr | val
 	Dense  bool
+	Type   string // "" = a type name of the source kind; otherwise a name the vocabulary gives to another family
 }
 
 func (vc viewCase) String() string {
 	d := "sparse"
 	if vc.Dense {
 		d = "dense"
+	}
+	if vc.Type != "" {
+		d += ", typed " + vc.Type
 	}
 	return fmt.Sprintf("%s%s(%s %s, %s)", vc.Via, vc.Helper.Name, vc.Form, vc.Src.Name, d)
 }
@@ -151,7 +155,13 @@ func viewCases() []viewCase {
 			for _, k := range vmodel.Kinds {
 				for _, form := range []string{"ptr", "val"} {
 					for _, dense := range []bool{true, false} {
-						out = append(out, viewCase{h, via, k, form, dense})
+						out = append(out, viewCase{Helper: h, Via: via, Src: k, Form: form, Dense: dense})
+					}
+					// the same source carrying a type name of another family: helpers that dispatch on the name must still look at the struct
+					for _, other := range vmodel.Kinds {
+						if other.Name != k.Name {
+							out = append(out, viewCase{Helper: h, Via: via, Src: k, Form: form, Dense: true, Type: other.SpecificType()})
+						}
 					}
 				}
 			}
@@ -167,7 +177,11 @@ func buildViewSource(vc viewCase, idx int) any {
 	g.Exact = true
 	if vc.Dense {
 		g.PSet = 0.95
-		return g.Struct(vc.Src, 1, true)
+		p := g.Struct(vc.Src, 1, true)
+		if vc.Type != "" {
+			reflect.ValueOf(p).Elem().FieldByName("Type").Set(reflect.ValueOf(vocab.ActivityVocabularyType(vc.Type)))
+		}
+		return p
 	}
 	p := vc.Src.New()
 	v := reflect.ValueOf(p).Elem()
@@ -289,7 +303,7 @@ func runView(c *Ctx, vc viewCase, idx int) {
 func init() {
 	Register(&Prop{
 		ID: "C08",
-		Rule: fmt.Sprintf("every To<T>/On<T> helper (%d) x every source kind (14) x {pointer, value} x {densely populated, sparse} = %d conversions, enumerated completely; whenever a conversion is accepted and the source kind differs from T: (1) layout rule by reflection: sizeof(T) <= sizeof(S) and every field of T sits at the same offset in S with the same name (Items/OrderedItems excepted) and a representation-compatible type, otherwise it should have been refused; (2) every shared field reads through the view as on the original, and for pointer inputs a write through the view is seen by the original and vice versa; (3) a full read and struct copy through the view on the checkptr build (and ASan in thorough), aborts attributed through the write-ahead record; distinct = conversion; non-trivial = accepted conversions between different kinds",
+		Rule: fmt.Sprintf("every To<T>/On<T> helper (%d) x every source kind (14) x {pointer, value} x {densely populated, sparse, typed with a name of each other family} = %d conversions, enumerated completely; whenever a conversion is accepted and the source kind differs from T: (1) layout rule by reflection: sizeof(T) <= sizeof(S) and every field of T sits at the same offset in S with the same name (Items/OrderedItems excepted) and a representation-compatible type, otherwise it should have been refused; (2) every shared field reads through the view as on the original, and for pointer inputs a write through the view is seen by the original and vice versa; (3) a full read and struct copy through the view on the checkptr build (and ASan in thorough), aborts attributed through the write-ahead record; distinct = conversion; non-trivial = accepted conversions between different kinds",
 			len(allViewHelpers), len(allViewCases)),
 		Builds: func(tier string) []string {
 			if tier == "thorough" {
